@@ -15,7 +15,7 @@ import (
 func VerifC03_a3_results() {
 	c := client.NewClient("http", "example.com", nil, nil, nil, false)
 	if nondetBool("primitive-result") {
-		res := nondetStringUpTo("res", 2)
+		res := nondetStringUpTo("res", deep(2))
 		p := &svc.BodyattrPayload{Key: "k", Item: &svc.Item{N: 1, S: "s"}}
 		req, _ := c.BuildBodyattrRequest(context.Background(), p)
 		var sent any
@@ -36,7 +36,7 @@ func VerifC03_a3_results() {
 	var res []*svc.Item
 	n := nondetChoice("len", 3)
 	for i := 0; i < n; i++ {
-		res = append(res, &svc.Item{N: nondetInt("n"), S: nondetStringUpTo("s", 1)})
+		res = append(res, &svc.Item{N: nondetInt("n"), S: nondetStringUpTo("s", deep(1))})
 	}
 	req, _ := c.BuildFindRequest(context.Background(), &svc.FindPayload{ID: "x"})
 	x := a3Serve(req, nil, res, "")
